@@ -1,6 +1,7 @@
 package gedcom
 
 import (
+	"sync"
 	"fmt"
 	"time"
 )
@@ -11,12 +12,16 @@ type FamilyNode struct {
 	cachedHusband, cachedWife bool
 	husband                   *HusbandNode
 	wife                      *WifeNode
+
+	// The spouses are looked up from several goroutines when individuals are
+	// compared with more than one job.
+	husbandMutex, wifeMutex sync.Mutex
 }
 
 func newFamilyNode(document *Document, pointer string, children ...Node) *FamilyNode {
 	return &FamilyNode{
 		newSimpleDocumentNode(document, TagFamily, "", pointer, children...),
-		false, false, nil, nil,
+		false, false, nil, nil, sync.Mutex{}, sync.Mutex{},
 	}
 }
 
@@ -25,6 +30,9 @@ func (node *FamilyNode) Husband() (husband *HusbandNode) {
 	if node == nil {
 		return nil
 	}
+
+	node.husbandMutex.Lock()
+	defer node.husbandMutex.Unlock()
 
 	if node.cachedHusband {
 		return node.husband
@@ -49,6 +57,9 @@ func (node *FamilyNode) Wife() (wife *WifeNode) {
 	if node == nil {
 		return nil
 	}
+
+	node.wifeMutex.Lock()
+	defer node.wifeMutex.Unlock()
 
 	if node.cachedWife {
 		return node.wife
